@@ -20,7 +20,7 @@
 #define NREC 6
 static struct S_struct_2eVSessB the_sess; static struct S_class_2eFIX8_3a_3aConnection the_conn; static struct S_struct_2eVPers the_pers;
 static struct S_struct_2eVMsg the_msg[NMSG]; static struct S_class_2eFIX8_3a_3aMessageBase the_hdr[NMSG];
-static uint64_t sock_raw[4];
+static uint64_t sock_raw[4], ctx_raw[64];          /* opaque handles: socket, F8MetaCntx (never read on these paths) */
 #define SESS ((struct S_class_2eFIX8_3a_3aSession*)&the_sess)
 #define MSGP(i) ((struct S_class_2eFIX8_3a_3aMessage*)&the_msg[i])
 enum { T34, T43, T49, T56, T52, T122, NTAG };
@@ -76,7 +76,7 @@ enum { K_APP, K_HEARTBEAT, K_SEQRESET, K_LOGOUT, NKIND };
 static void world_msg(int i, int kind)
 {
   const uint8_t *t = kind == K_APP ? ty_app : kind == K_HEARTBEAT ? ty_hb : kind == K_SEQRESET ? ty_sr : ty_lo;
-  vf_sb_msg_init(&the_msg[i], &the_hdr[i], (uint8_t*)t);
+  vf_sb_msg_init(&the_msg[i], &the_hdr[i], (uint8_t*)t, (struct S_struct_2eFIX8_3a_3aF8MetaCntx*)ctx_raw);
   a_admin[i] = kind != K_APP;
   uint8_t n = nondet_u8(); VF_ASSUME(n >= 2 && n <= ENC_MAX); a_elen[i] = n;
   for (int b = 0; b < ENC_MAX; b++) { uint8_t c = nondet_u8(); VF_ASSUME(c != 0); a_enc[i][b] = c; }
